@@ -57,6 +57,27 @@ def instances(tier, seed):
     out.append(dict(label='set_other_untouched', kind='set_other'))
     for name in ('dv', 'dv_single', 'dv_linked', 'dv_or_existence', 'dv_or_direct', 'dv_same_name', 'dv_linked3_cond'):
         out.append(dict(label=f'decode_dv {name}', kind='decode_dv', template=name))
+    # seeded random graphs with design-variable nodes (pools/dsg_random.py), bounded so that the sweep stays small
+    from pools import dsg as dsg_pool
+    from adsg_core import DesignVariableNode
+    want, s_ = (6, 1000*seed) if tier == 'quick' else (30, 1000*seed)
+    found = 0
+    while found < want and s_ < 1000*seed+400:
+        try:
+            gp_, _, info_ = dsg_pool.make_processor(f'rnd{s_}')
+        except RuntimeError:
+            s_ += 1
+            continue
+        dvs_ = gp_.des_vars
+        n_sel = 1
+        for d_ in dvs_:
+            if not isinstance(d_.node, DesignVariableNode):
+                n_sel *= d_.n_opts
+        n_disc = len([d_ for d_ in dvs_ if isinstance(d_.node, DesignVariableNode) and d_.is_discrete])
+        if info_['dv'] and n_sel <= 12 and n_disc <= 2:
+            out.append(dict(label=f'decode_dv rnd{s_}', kind='decode_dv', template=f'rnd{s_}'))
+            found += 1
+        s_ += 1
     widths = [(16, 30), (32, 30), (64, 30)] if tier == 'quick' else [(16, 60), (32, 120), (64, 300)]
     for bits, to in widths:
         out.append(dict(label=f'fp_single bits={bits}', kind='fp_single', bits=bits, timeout=to))
